@@ -121,7 +121,88 @@ def units(tier):
         for rec_kind in parser.specification:
             us.append((tname, rec_kind))
     us.append(('dict-path',))
+    us.append(('two-parsers',))
     return us
+
+
+def two_parsers_unit(rec):
+    """No interference between parser objects: every parser reads with ITS OWN conversion functions and
+    column positions, whatever other parser (same table with another read function, another table with the
+    same record names) was created or used before it in the process.  Both creation orders."""
+    import copy
+    import fixed_format_file as fff
+    import t2data, t2incons, mulgrids
+    null = os.path.join(core.scratch(), 'c02b.tmp')
+    specs = {'t2data': t2data.t2data_format_specification,
+             't2data_xp': t2data.t2data_extra_precision_format_specification,
+             't2incon': t2incons.t2incon_format_specification,
+             'mulgrid': mulgrids.mulgrid_format_specification}
+    fns = {'default': fff.default_read_function, 'fortran': fff.fortran_read_function}
+    n = 0
+
+    def mk(spec, fn):
+        q = fff.fixed_format_file(null, 'w', spec, fns[fn])
+        q.file.close()
+        return q
+
+    def probe(q, fn, tname, kind, order):
+        # a real field holding a Fortran-only form, an integer field with an embedded blank
+        out = []
+        names, fmts = q.specification[kind]
+        cols, width = ref_columns(fmts)
+        for i, f in enumerate(fmts):
+            typ, w, prec, left = split_fmt(f)
+            if typ in 'efg' and w >= 9:
+                text = '1.5D+02'.rjust(w)
+                want = 150.0 if fn == 'fortran' else None
+            elif typ == 'd' and w >= 3:
+                text = ('1 2').rjust(w)
+                want = 12 if fn == 'fortran' else None
+            else:
+                continue
+            line = ''.join(text if j == i else ' ' * split_fmt(g)[1] for j, g in enumerate(fmts))
+            got = q.parse_string(line, kind)[i]
+            if got != want:
+                out.append(('C02|%s|%s|%d:%s|%s|own-read-function|%s-parser-created-%s' % (tname, kind, i, names[i], f, fn, order),
+                            '%s parser reads %r as %r, its own read function gives %r' % (fn, text, got, want)))
+        return out
+
+    for tname, spec in specs.items():
+        kinds = list(spec)
+        for first, second in (('default', 'fortran'), ('fortran', 'default')):
+            sp = copy.deepcopy(spec)          # a new table object: nothing cached for it yet
+            q1 = mk(sp, first)
+            q2 = mk(sp, second)
+            for kind in kinds:
+                for q, fn, order in ((q2, second, 'second'), (q1, first, 'first')):
+                    for sig, what in probe(q, fn, tname, kind, order):
+                        rec.violation(sig, what, {'two_parsers': tname, 'record': kind, 'order': [first, second]})
+                    n += 1
+                    rec.case((tname, kind, first, second, order, 'two-parsers'), outcome='two-parsers')
+    # two tables sharing record names with different widths (standard / extra precision), both orders
+    for a, b in (('t2data', 't2data_xp'), ('t2data_xp', 't2data')):
+        qa = mk(copy.deepcopy(specs[a]), 'default')
+        qb = mk(copy.deepcopy(specs[b]), 'default')
+        for q, tname in ((qb, b), (qa, a)):
+            for kind in q.specification:
+                names, fmts = q.specification[kind]
+                cols, width = ref_columns(fmts)
+                vals = [sentinel(*split_fmt(f)[:2], pos=j) for j, f in enumerate(fmts)]
+                line = q.write_values_to_string(vals, kind)
+                back = q.parse_string(line, kind)
+                n += 1
+                rec.case((a, b, tname, kind, 'two-tables'), outcome='two-tables')
+                for j, f in enumerate(fmts):
+                    tj = f[-1]
+                    if tj == 'x':
+                        continue
+                    if back[j] != expected_sentinel(tj, f, vals[j]):
+                        rec.violation('C02|%s|%s|%d|%s|own-columns|after-%s' % (tname, kind, j, f, a if tname == b else b),
+                                      'field %d of %s/%s reads back %r instead of %r when a parser of the other table exists'
+                                      % (j, tname, kind, back[j], vals[j]), {'two_tables': [a, b], 'record': kind})
+                        break
+    rec.count('two_parser_cases', n)
+    rec.sample({'two_parsers': 'parsers of one table with default / Fortran read functions in both creation orders; standard and extra-precision tables in both orders', 'cases': n})
 
 
 def dict_records(parser):
@@ -304,6 +385,8 @@ def vclass(typ, val):
 
 
 def run_unit(unit, tier, rec):
+    if unit[0] == 'two-parsers':
+        return two_parsers_unit(rec)
     if unit[0] == 'dict-path':
         # the dictionary route (write_value_line / read_value_line) used for PARAM, MULTI, LINEQ, SOLVR,
         # TIMES.1, ROCKS.1.1, mesh-maker, incon timing and MULgraph header records
@@ -373,6 +456,10 @@ def run_unit(unit, tier, rec):
 
 
 def replay(case):
+    if 'two_parsers' in case or 'two_tables' in case:
+        r = core.Rec()
+        two_parsers_unit(r)
+        return [(sig, e['what']) for sig, e in r.viol.items()]
     parser = tables()[case['table']]
     if 'dict' in case:
         return eval_dict_case(parser, case['table'], case['record'], case['field'], case['dict'])
